@@ -116,6 +116,27 @@ void h_lcm64_contract(void)
     REACHED();
     CHECK((u128)l * stub_g64 == (u128)a * b, "lcm64.product-contract");
 }
+/* high bits: operands with GCD_BITS significant bits shifted to an arbitrary position of the word
+   (gcd / lcm commute with a common power-of-two factor) */
+#ifndef GCD_SHIFT
+#define GCD_SHIFT 32
+#endif
+void h_gcd64_shifted(void)
+{
+    IN(a_u64, a); IN(a_u64, b);
+    ASSUME(a < (1ull << GCD_BITS) && b < (1ull << GCD_BITS));
+    a_u64 g = a_u64_gcd(a, b);
+    REACHED();
+    CHECK(a_u64_gcd(a << GCD_SHIFT, b << GCD_SHIFT) == g << GCD_SHIFT, "gcd64.common-power-of-two-factor");
+}
+void h_gcd32_shifted(void)
+{
+    IN(a_u32, a); IN(a_u32, b);
+    ASSUME(a < (1u << GCD_BITS) && b < (1u << GCD_BITS));
+    a_u32 g = a_u32_gcd(a, b);
+    REACHED();
+    CHECK(a_u32_gcd(a << (GCD_SHIFT / 2), b << (GCD_SHIFT / 2)) == g << (GCD_SHIFT / 2), "gcd32.common-power-of-two-factor");
+}
 /* full-width one-step facts */
 void h_gcd_edges(void)
 {
